@@ -42,4 +42,37 @@ inductive HjAction | writeResponse | flush | clearDeadlines | runHandler | close
 def hijackActions (noResponse keep : Bool) : List HjAction :=
   (if noResponse then [] else [.writeResponse, .flush]) ++ [.clearDeadlines, .runHandler] ++ (if keep then [] else [.closeConn])
 
+/-! ### the hijack flags of RequestCtx across the requests of one connection -/
+
+/-- what the handler of one request did -/
+structure HjReq where
+  setNoResp : Bool    -- ctx.HijackSetNoResponse(true)
+  hijack : Bool       -- ctx.Hijack(handler)
+  timedOut : Bool     -- the handler timed out / called TimeoutError*: the server goes on with a fresh ctx
+  deriving DecidableEq, Repr
+
+/-- the two RequestCtx fields that survive from one loop iteration to the next (the ctx is reused) -/
+structure HjCtx where
+  handler : Bool := false
+  noResp : Bool := false
+  deriving DecidableEq, Repr
+
+structure HjOut where
+  hijacked : Bool       -- the connection is handed to a hijack handler after this request
+  suppressed : Bool     -- no response is written for this request
+  deriving DecidableEq, Repr
+
+/-- one iteration of serveConnCounted as far as the flags are concerned: the handler sets them on the ctx it was given;
+    after a timeout the server continues with a fresh ctx; then
+    `hijackHandler = ctx.hijackHandler; ctx.hijackHandler = nil;
+     hijackNoResponse = ctx.hijackNoResponse && hijackHandler != nil; ctx.hijackNoResponse = false` -/
+def hjIter (c : HjCtx) (r : HjReq) : HjCtx × HjOut :=
+  let afterHandler : HjCtx := ⟨c.handler || r.hijack, c.noResp || r.setNoResp⟩
+  let seen : HjCtx := if r.timedOut then {} else afterHandler
+  ({}, ⟨seen.handler, seen.noResp && seen.handler⟩)
+
+def hjRun : HjCtx → List HjReq → List HjOut
+  | _, [] => []
+  | c, r :: rest => let x := hjIter c r; x.2 :: (if x.2.hijacked then [] else hjRun x.1 rest)
+
 end Fh.Model
